@@ -102,10 +102,13 @@ func (r *validationResponseHandler) HandleValidationResponse(
 	if (err != nil || isStaleErrorAllowed(resp.StatusCode)) && req.Method == http.MethodGet {
 		// RFC 5861 §4: stale-if-error is taken from the stored response or the
 		// request (not from the error reply, which may not even exist), and it
-		// never overrides must-revalidate or no-cache (RFC 9111 §4.2.4).
+		// never overrides must-revalidate or no-cache (RFC 9111 §4.2.4) - the
+		// request's no-cache included: such a request is not satisfied from the
+		// store without successful validation (RFC 9111 §5.2.1.4).
 		ccStored := ParseCCResponseDirectives(ctx.Stored.Data.Header)
 		noCacheFields, hasNoCache := ccStored.NoCache()
 		if !ccStored.MustRevalidate() && !(hasNoCache && noCacheFields == "") &&
+			!ctx.CCReq.NoCache() &&
 			r.siep.CanStaleOnError(ctx.Freshness, ccStored, ctx.CCReq) {
 			// RFC 9111 §4.2.4 Serving Stale Responses
 			// RFC 9111 §4.3.3 Handling Validation Responses (5xx errors)
